@@ -120,10 +120,16 @@ def check_string(res, fam, cls, letters, ec, x, ecname):
         return
     res.evaluations += 1
     res.transitions += 2
-    out = obj.to_er7(ec)
-    raw, lone = tokenize(out, ec, letters)
     point = {'kind': 'A', 'class': fam, 'ec': ec, 'x': x}
     pat = role_pattern(x, ec)
+    try:
+        out = obj.to_er7(ec)
+    except Exception as e:
+        res.violation('encoder-raises|%s|%s|%s' % (fam, type(e).__name__, pat), 'to_er7(%r) raises %s: %s (%s)' % (x, type(e).__name__, e, ecname),
+                      point, rank=len(x))
+        res.classes['encoder-raises'] += 1
+        return
+    raw, lone = tokenize(out, ec, letters)
     special = any(ch in x for ch in ec.values() if ch != '\r')
     if special:
         res.nontrivial += 1
@@ -138,7 +144,10 @@ def check_string(res, fam, cls, letters, ec, x, ecname):
         res.classes['lone-escape'] += 1
     out2 = make(cls, out)
     if out2 is not None:
-        out2 = out2.to_er7(ec)
+        try:
+            out2 = out2.to_er7(ec)
+        except Exception as e:
+            out2 = '!raises %s' % type(e).__name__
         if out2 != out:
             res.violation('non-idempotent|%s|%s' % (fam, pat), 'e(x)=%r but e(e(x))=%r for x=%r' % (out, out2, x),
                           point, rank=len(x))
@@ -195,7 +204,7 @@ def ec_from(t):
 
 def units(tier):
     nA = 5 if tier == 'quick' else 6
-    nB = 3 if tier == 'quick' else 4
+    nB = 3          # thorough widens the pool (8 characters: 26,880 assignments), not the strings
     pool = POOL6 if tier == 'quick' else POOL8
     us = []
     classes = textual_classes()
@@ -220,6 +229,14 @@ def units(tier):
     for v in ('2.5', '2.7'):
         for k in range(3):
             us.append(('C', v, k))
+    # D: order dependence - class B judged after class A has encoded with the same delimiter set in the same process
+    # (every unit runs in a fresh process, so "first use" of a class / set is reproducible)
+    for a in range(len(classes)):
+        for b in range(len(classes)):
+            if a != b:
+                us.append(('D', a, b, 3 if tier == 'quick' else 4))
+    for ci in range(len(classes)):
+        us.append(('E', ci, 3 if tier == 'quick' else 4))
     return us
 
 
@@ -268,6 +285,47 @@ def run_unit(unit, tier):
             res.states += cnt
             res.expected_size += n_strings(len(sym), n)
             res.dims['B:delimiter-sets'] += 1
+    elif unit[0] == 'D':
+        _, a, b, n = unit
+        va, na, A = classes[a]
+        vb, nb, B = classes[b]
+        for ecname, ec, letters in ec_sets_for(B):
+            sym = alphabet(ec)
+            for x in strings(sym, 2):
+                o = make(A, x)
+                if o is not None:
+                    try:
+                        o.to_er7(ec)
+                    except Exception:
+                        pass
+            fam = family_name(vb, nb, B) + ('@2.7+' if letters == LETTERS_27 else '@<2.7') + '|after-' + A.__module__.replace('hl7apy.', '') + '.' + A.__name__
+            cnt = 0
+            for x in strings(sym, n):
+                check_string(res, fam, B, letters, ec, x, ecname + ' after ' + A.__name__)
+                cnt += 1
+            res.enumerated += cnt
+            res.states += cnt
+            res.expected_size += n_strings(len(sym), n)
+        res.dims['D:ordered class pairs'] += 1
+    elif unit[0] == 'E':
+        # the same class under its delimiter sets one after the other, in both orders (sets differing only in the truncation character)
+        _, ci, n = unit
+        v, nm, cls = classes[ci]
+        ctxs = ec_sets_for(cls)
+        import itertools as _it
+        for order in _it.permutations(range(len(ctxs))):
+            for oi in order:
+                ecname, ec, letters = ctxs[oi]
+                sym = alphabet(ec)
+                fam = family_name(v, nm, cls) + ('@2.7+' if letters == LETTERS_27 else '@<2.7') + '|set-order'
+                cnt = 0
+                for x in strings(sym, n):
+                    check_string(res, fam, cls, letters, ec, x, ecname + ' in order %r' % (order,))
+                    cnt += 1
+                res.enumerated += cnt
+                res.states += cnt
+                res.expected_size += n_strings(len(sym), n)
+        res.dims['E:set orders'] += 1
     else:
         _, v, k = unit
         end_to_end(res, v, k)
@@ -356,13 +414,27 @@ def end_to_end(res, v, k):
 
 def run(tier, seed, extra):
     us = common.rotate(units(tier), seed)
-    extra['bounds'] = {'A_max_len': 5 if tier == 'quick' else 6, 'B_max_len': 3 if tier == 'quick' else 4,
+    extra['bounds'] = {'A_max_len': 5 if tier == 'quick' else 6, 'B_max_len': 3,
                        'B_pool': POOL6 if tier == 'quick' else POOL8, 'C_max_len': 3,
                        'classes': [family_name(*c) for c in textual_classes()]}
-    return common.run_units(run_unit, us, tier)
+    return common.run_units(run_unit, us, tier, fresh_process_per_unit=True)
 
 
 def replay(point, res):
+    if point['kind'] == 'A' and '|' in point['class']:
+        # order-dependence units: re-run the unit that produced it
+        fam = point['class']
+        cl = textual_classes()
+        base, how = fam.split('|', 1)
+        for bi, (v, n, cls) in enumerate(cl):
+            if base.startswith(family_name(v, n, cls) + '@'):
+                if how == 'set-order':
+                    res.merge(run_unit(('E', bi, 3), 'quick'))
+                else:
+                    for ai, (va, na, A) in enumerate(cl):
+                        if how == 'after-' + A.__module__.replace('hl7apy.', '') + '.' + A.__name__:
+                            res.merge(run_unit(('D', ai, bi, 3), 'quick'))
+        return
     if point['kind'] == 'A':
         for v, n, cls in textual_classes():
             for letters in (LETTERS_BASE, LETTERS_27):
